@@ -1,0 +1,31 @@
+//go:build verif
+
+// Package verifhook holds the scheduling seams used by the deterministic
+// simulation harness that lives outside this repository.
+package verifhook
+
+import "sync"
+
+const Enabled = true
+
+// Yield, when set, is called at every instrumented scheduling point with a
+// stable (point, detail) identity. The simulator parks the caller there and
+// decides who runs next.
+var Yield func(point, detail string)
+
+// LockerWrap, when set, wraps lockers handed to condition variables so that
+// the simulator decides which woken waiter proceeds.
+var LockerWrap func(sync.Locker) sync.Locker
+
+func At(point, detail string) {
+	if f := Yield; f != nil {
+		f(point, detail)
+	}
+}
+
+func WrapLocker(l sync.Locker) sync.Locker {
+	if f := LockerWrap; f != nil {
+		return f(l)
+	}
+	return l
+}
